@@ -57,7 +57,9 @@ def make_xf(extras, rot, allow_structural=True):
             if s == 'Copy' and 'Clone' not in have and 'Clone' not in extras:
                 continue
             if s == 'Eq' and ('PartialEq' not in have and 'PartialEq' not in add):
-                continue
+                # stand-alone educed Eq next to a derived PartialEq (the request's own `#[derive(PartialEq, ..)]`)
+                if not ('#[derive(PartialEq' in t.extra_attrs and 'Eq' not in t.extra_attrs.replace('PartialEq', '')):
+                    continue
             if s == 'Ord' and not ({'PartialOrd', 'Eq'} <= (have | set(add)) or ({'Eq'} <= (have | set(add)) and 'PartialOrd' in extras)):
                 continue
             if s == 'PartialOrd' and 'PartialEq' not in (have | set(add)) and '#[derive(PartialEq' not in t.extra_attrs:
@@ -162,12 +164,12 @@ def templates():
     for sh, cp in [(('struct', [('named', ['m', 'b', 'u'])]), False), (('enum', [('tuple', ['b', 'm']), ('named', ['u']), ('unit', [])]), False), (('enum', [('tuple', ['l', 'k']), ('named', ['u', 'l'])]), True)]:
         def mk(modname, cfgid, xf, sp=None, sh=sh, cp=cp):
             return p_c07.emit(modname, cfgid, sh, cp, xf=xf, sp=sp)
-        T.append((f'Clone:{S.shape_id(sh)}/copy={int(cp)}', ['Clone', 'Copy', 'PartialEq', 'Debug'], ['Hash', 'PartialOrd', 'Default', 'Deref', 'DerefMut', 'Into'], mk))
+        T.append((f'Clone:{S.shape_id(sh)}/copy={int(cp)}', ['Clone', 'Copy', 'PartialEq', 'Debug'], ['Hash', 'Eq', 'PartialOrd', 'Default', 'Deref', 'DerefMut', 'Into'], mk))
 
     for (kind, vs, marked, te, new) in [('struct', [('named', ['e', 'd', 'e'])], 0, False, True), ('enum', [('unit', []), ('tuple', ['e', 'd']), ('named', ['d'])], 1, False, False), ('struct', [('tuple', ['d', 'e'])], 0, True, False)]:
         def mk(modname, cfgid, xf, sp=None, kind=kind, vs=vs, marked=marked, te=te, new=new):
             return p_c08.emit(modname, cfgid, kind, vs, marked, te, new, xf=xf, sp=sp)
-        T.append((f'Default:{p_c08.vid(kind, vs, marked, te, new, False)}', ['Default', 'PartialEq', 'Debug'], ['Clone', 'Copy', 'Hash', 'PartialOrd', 'Deref', 'DerefMut', 'Into'], mk))
+        T.append((f'Default:{p_c08.vid(kind, vs, marked, te, new, False)}', ['Default', 'PartialEq', 'Debug'], ['Clone', 'Copy', 'Eq', 'Hash', 'PartialOrd', 'Deref', 'DerefMut', 'Into'], mk))
 
     specs9 = p_c09.variant_specs(True)
     for idx in (5, 40, 77):
